@@ -10,8 +10,11 @@ import gen_codec
 PROPERTIES = ["C18"]
 MANIFEST = {
     "C18": {
-        "technique": "Lean 4 proof over a checked-memory model of Unicode.hpp / String::fromHex / fromBase64 / the numeric conversions "
-                     "(tables, masks, guard and encoder range tests regenerated from the sources by tools/gen_codec.py; Unicode::length, String::isSpace and "
+        "technique": "Lean 4 proof over a checked-memory model of Unicode.hpp / String::fromHex / fromBase64 / the numeric conversions; tie by TRANSLATION: "
+                     "tools/gen_codec.py parses the bodies of Unicode::append (UTF-8 and _UNICODE branch) / toString / length / fromString / isValid (all overloads), "
+                     "String::fromHex, String::fromBase64 and the fifteen numeric wrappers from the current sources (C++ subset -> Lean, refusing anything else) and "
+                     "PropsBody*.lean prove every translated function equal to the model function on all inputs "
+                     "(tables, masks, guard and encoder range tests are additionally regenerated as single definitions; Unicode::length, String::isSpace and "
                      "the case maps as tables obtained by executing the current sources) + differential correspondence of the compiled model with the real "
                      "code under ASan/UBSan, incl. all 1,114,112 code points, and of the libc definitions with the real libc",
         "text": "Theorems (all inputs, no bounds; Nstd/Codec/Props.lean + PropsNum.lean + PropsUtf8.lean, none partial): toString(cp) = RFC 3629 encoding and "
@@ -26,14 +29,27 @@ MANIFEST = {
                 "unsigned type / truncation to uint / where ISO C leaves atoi undefined and what glibc does), text without a number (0), embedded NUL - "
                 "the printed numerals are canonical, all round trips incl. the minimum values through both overload families, which branch of String::printf "
                 "runs; fromDouble/toDouble round trip for every double that is a multiple of 1/64 (where %f is exact), relative to an exact-on-representable strtod; "
-                "isSpace / toLowerCase(char) / toUpperCase(char) for all 256 bytes.  Tie to the current sources on every run: generated tables / guard / "
+                "isSpace / toLowerCase(char) / toUpperCase(char) for all 256 bytes; the _UNICODE branch of Unicode::append = UTF-16 (RFC 2781) for every uint32 "
+                "(utf16_agrees, on the translated code; that branch is not compiled here).  "
+                "TRANSLATED = MODEL (PropsBody.lean, PropsBodyStr.lean, PropsBodyNum.lean): the Lean functions that tools/gen_codec.py reads off the current bodies of "
+                "Unicode::append / toString / length / fromString / isValid (pointer and String forms, array forms), String::fromHex, String::fromBase64 "
+                "(every if / switch with fall-through / loop / pointer step / checked read and store / uint32 and usize wrap-around) are the model functions for all byte "
+                "lists, all lengths < 2^64 and every fuel above the length (body_append ... body_fromBase64); the ten parsers and five formatters call the libc "
+                "function with the arguments and result conversion the model says (body_toInt ... body_fromDouble); numeric_boundary_table: 27 closed rows "
+                "(\"-1\" through the unsigned parsers, +-2^64, +-2^63, 2^32, 2^31) that also run on the real code and libc from the corpus.  "
+                "Tie to the current sources on every run: the translated bodies above, generated tables / guard / "
                 "switch expressions / masks / range tests (the theorems are stated over them), identical op lines through the real "
                 "code (exactly sized heap buffers; every public overload named by the property, both overload families printed) and the compiled model with Python "
                 "codecs/base64/int/float as independent reference, direct calls of atoi/strtol/strtoul/strtoll/strtoull/atoll/snprintf compared with the Lean "
                 "definitions of libc, and a test of the Lean specifications against Python.",
-        "note": "Trusted: Lean kernel + propext/Classical.choice/Quot.sound; the hand translation of the control flow of "
-                "Unicode.hpp and of fromHex/fromBase64 into Nstd/Codec/Model.lean (validated by the correspondence run, not proved); "
-                "the translator tools/gen_codec.py (Unicode::length, String::isSpace, toLowerCase/toUpperCase(char) as tables by executing harness/codec_probe.cpp built from the current "
+        "note": "Trusted: Lean kernel + propext/Classical.choice/Quot.sound; the SEMANTICS of the body translator of tools/gen_codec.py (unsigned values as Nat with "
+                "modulo 2^width exactly where a sound static range analysis cannot exclude a wrap; usize counters ++/+= assumed not to wrap; a signed char keeps its byte value "
+                "and is refused where sign extension would matter; pointer parameters as offsets into a block with a readable range; (const char*)s = s ++ [0] readable below "
+                "length(); String r / r.append / r.resize / r.reserve + raw stores + resize(j) under the buffer protocol below; loops as recursive functions on fuel, the theorems "
+                "hold for every fuel above the length; switch = selector once, cases in source order, fall-through unrolled; anything outside the subset is refused = broken tie); "
+                "hand-translated and only tied by the correspondence run: String::printf / fromPrintf (two attempts over vsnprintf), cstr (String -> const char*), the <cctype> wrappers; "
+                "the UTF-16 branch of Unicode::append is translated and proved but never executed (not compiled on this platform); "
+                "the table/expression translator of tools/gen_codec.py (Unicode::length, String::isSpace, toLowerCase/toUpperCase(char) as tables by executing harness/codec_probe.cpp built from the current "
                 "sources; otherwise regexes + a small C expression/statement translator that interprets the per-byte tests of fromBase64 in "
                 "source order; a shape it cannot interpret is reported as a broken tie); libc behaviour (vsnprintf %d/%u/%lld/%llu/%f, strtol/strtoul/strtoll/strtoull, glibc atoi/atoll, "
                 "<cctype> in the C locale, LP64) is ASSUMED as Lean definitions - the numeric theorems are relative to them; they are compared with the real libc by the lcs/lcf/cls/fd lines "
@@ -44,11 +60,12 @@ MANIFEST = {
                 "fromHex (2*size bytes) are fixed blocks with checked writes (fromBase64: exactly the bytes of its `result.reserve(E)` request).  The exhaustive runs (all code points, all byte strings "
                 "<= 3 bytes, all base64 strings <= 4 symbols over 68 symbols) are TESTS of the tie, not the proof.  isValid accepts "
                 "over-long forms / surrogates / > U+10FFFF by design of the code; isValid_spec, abnf_iff and rfc3629_accepted state exactly that.  The _UNICODE (UTF-16) branch of "
-                "Unicode::append is not compiled here and not modelled; libnstd has no toHex/toBase64/hex decoder.",
+                "Unicode::append is not compiled here (translated + proved, not run); libnstd has no toHex/toBase64/hex decoder.",
         "design_ref": "DESIGN.md 3/C18",
     }
 }
-PROPS = ["Nstd.Codec.Props", "Nstd.Codec.PropsNum", "Nstd.Codec.PropsUtf8", "Nstd.Codec.PropsBody"]
+PROPS = ["Nstd.Codec.Props", "Nstd.Codec.PropsNum", "Nstd.Codec.PropsUtf8", "Nstd.Codec.PropsBody", "Nstd.Codec.PropsBodyStr",
+         "Nstd.Codec.PropsBodyNum", "Nstd.Codec.PropsBodyUtf16"]
 DRIVER = "drv_codec"
 LEAN_TARGETS = PROPS + [DRIVER]
 SOURCES = ["codec.cpp", C.REPO / "src/String.cpp", C.REPO / "src/Memory.cpp"]
@@ -65,7 +82,17 @@ def setup():
 
 
 def gen(ctx):
-    return gen_codec.gen(ctx, C.REPO)
+    r = gen_codec.gen(ctx, C.REPO)
+    if ctx is not None and r[0]:
+        try:                     # what the body translator produced on THIS run (measured from the generated files)
+            import re as _re
+            body = gen_codec.BODY_OUT.read_text()
+            num = gen_codec.NUM_OUT.read_text()
+            ctx.cov["translated_functions"] = _re.findall(r"^def (\w+)", body, _re.M) + ["num:" + n for n in _re.findall(r"^def (\w+)", num, _re.M)]
+            ctx.cov["translated_lean_lines"] = body.count("\n") + num.count("\n")
+        except OSError:
+            pass
+    return r
 
 
 def hx(bs):
